@@ -10,13 +10,13 @@ trap 'git -C /repo worktree remove --force '$wt' >/dev/null 2>&1; rm -rf '$wt EX
 cd $wt
 cp $sd/demo_test.go $dest
 pkg=./$(dirname $dest)/
-name=$(grep -o 'func Test[A-Za-z0-9_]*' $dest | head -1 | sed 's/func //')
+name=$(grep -o 'func Test[A-Za-z0-9_]*' $dest | sed 's/func //' | paste -sd'|')
 echo "[1] demo without patch (expect PASS)"
-go test -vet=off -count=1 -run "$name" $pkg 2>&1 | tail -3
+go test -vet=off -count=1 -run "^($name)\$" $pkg 2>&1 | tail -3
 r1=${PIPESTATUS[0]}
 git apply $sd/patch.diff || { echo "PATCH DOES NOT APPLY"; exit 2; }
 echo "[2] demo with patch (expect FAIL)"
-go test -vet=off -count=1 -run "$name" $pkg 2>&1 | tail -6
+go test -vet=off -count=1 -run "^($name)\$" $pkg 2>&1 | tail -6
 r2=${PIPESTATUS[0]}
 rm -f $dest
 echo "[3] build"
